@@ -114,18 +114,33 @@ Proof.
   apply IH.
 Qed.
 
-Lemma phase2_np R : sound R -> forall ws scheds dq sel acc, phase2 R ws scheds dq sel acc <> Panic.
+Lemma iif_loop_np R : forall fuel i deps added, iif_loop fuel R i deps added <> Panic.
 Proof.
-  intros HS. induction ws as [|w ws IH]; intros scheds dq sel acc; [simpl; discriminate|].
+  induction fuel as [|f IH]; intros i deps added; cbn [iif_loop]; destruct (nth_error deps i); try discriminate.
+  destruct (iif_visit R p added) as [news added']. apply IH.
+Qed.
+
+Lemma iif_loop_not_err R : forall fuel i deps added, iif_loop fuel R i deps added <> Err.
+Proof.
+  induction fuel as [|f IH]; intros i deps added; cbn [iif_loop]; destruct (nth_error deps i); try discriminate.
+  destruct (iif_visit R p added) as [news added']. apply IH.
+Qed.
+
+Lemma phase2_np R : sound R -> forall ws dq sel acc, phase2 R ws dq sel acc <> Panic.
+Proof.
+  intros HS. induction ws as [|w ws IH]; intros dq sel acc; [simpl; discriminate|].
   cbn [phase2]. unfold get_pkg, get_pkg_core, resolve_package.
   destruct (best_package R (s_name w) [] [] (s_pin w) (candidates R dq w)) as [i|]; cbn [rbind]; [|discriminate].
   pose proof (get_deps_np R HS (fuel_bound R) i (s_pin w) []
       {| st_dq := dq; st_selected := sel; st_existing := snd acc; st_origins := initial_origins R (snd acc) |}) as NG.
   destruct (get_deps (fuel_bound R) R i (s_pin w) [] _) as [[st' ds]| | |]; cbn [rbind]; try discriminate; [|congruence].
-  destruct (dedup_by_name R ds) as [l added]. cbn [rbind]. apply IH.
+  destruct (dedup_by_name R ds) as [l added]. cbn [rbind].
+  pose proof (iif_loop_np R (fuel_bound R) 0 l added) as NI.
+  destruct (iif_loop (fuel_bound R) R 0 l added) as [deps| | |]; cbn [rbind]; try discriminate; [|congruence].
+  apply IH.
 Qed.
 
-Theorem resolve_no_panic U W dq0 scheds : resolve U W dq0 scheds <> Panic.
+Theorem resolve_no_panic U W dq0 : resolve U W dq0 <> Panic.
 Proof.
   unfold resolve, resolve_with. pose proof (new_resolver_sound U) as HS. set (R := new_resolver U) in *.
   pose proof (constrain_np R (List.map cook_dep W) dq0) as NC.
